@@ -314,6 +314,19 @@ def fallback_and_dispatch(rep):
     rets = returns_of(bt.node)
     pm = parent_map(bt.node)
     prim = [nm for nm, ds in defs.items() for d_ in ds if d_.kind == "assign" and isinstance(d_.value, ast.Call) and call_name(d_.value) == STRATS[1]]
+    short = [r for r in rets if isinstance(r.value, ast.BoolOp) and isinstance(r.value.op, ast.Or) and len(r.value.values) == 2
+             and all(isinstance(v_, ast.Call) for v_ in r.value.values) and [call_name(v_) for v_ in r.value.values] == [STRATS[1], STRATS[0]]]
+    if not prim and len(short) == 1 and len(rets) == 1:
+        # `return <component-aware>(...) or <exhaustive>(...)`: the non-empty first result, else the second
+        okb = True
+        for c, q in zip(short[0].value.values, (STRATS[1], STRATS[0])):
+            cal = rep.f(SM, ENG + q)
+            names = [norm(a) for a in c.args]
+            okb = okb and names == cal.params[: len(names)] and len(names) == len(cal.params)
+        rep.ob("O6.5", "SHAPE", bt, okb, "return <component-aware>(...) or <exhaustive>(...)",
+               "bt returns the component-aware result when non-empty and the exhaustive result otherwise (same arguments)")
+        _dispatch(rep)
+        return
     rep.need("SHAPE", len(prim), 1, "primary = <component-aware search>(...) in the bt strategy")
     P0 = prim[0]
     kinds = []
@@ -341,15 +354,32 @@ def fallback_and_dispatch(rep):
             ok = ok and names == cal.params[: len(names)] and len(names) == len(cal.params)
     rep.ob("O6.5", "SHAPE", bt, ok, rets[0] if rets else "return",
            "bt returns the component-aware result when non-empty and the exhaustive result otherwise (same arguments)")
-    # dispatch
+    _dispatch(rep)
+
+
+def _dispatch(rep):
     fi = rep.f(SM, ENG + "find_subgraph_mappings")
     pm = parent_map(fi.node)
     calls = {}
+    extra_conds = {}   # strategy -> conditions under which a shared call site uses this strategy's function object
     n_calls = 0
+    fdefs0 = local_defs(fi.node)
+    from ..facts import if_cases
     for c in walk_local(fi.node):
         if isinstance(c, ast.Call) and call_name(c) in STRATS:
             calls[call_name(c)] = c
+            extra_conds[call_name(c)] = ()
             n_calls += 1
+        elif isinstance(c, ast.Call) and isinstance(c.func, ast.Name) and c.func.id in fdefs0:
+            # fn = <engine>._find_x if cond else <engine>._find_y ; results = fn(...)
+            for d_ in fdefs0[c.func.id]:
+                if d_.kind != "assign" or d_.value is None:
+                    continue
+                for conds, leaf in if_cases(d_.value):
+                    if isinstance(leaf, ast.Attribute) and leaf.attr in STRATS:
+                        calls[leaf.attr] = c
+                        extra_conds[leaf.attr] = conds
+                        n_calls += 1
     rep.need("SHAPE", n_calls, 3, "strategy calls in find_subgraph_mappings")
     for q in STRATS:
         if q not in calls:
@@ -362,11 +392,11 @@ def fallback_and_dispatch(rep):
     own = {STRATS[0]: "ALL", STRATS[1]: "COMPONENT", STRATS[2]: "BACKTRACK"}
     members = ("ALL", "COMPONENT", "BACKTRACK")
 
-    def reached(c, value):
+    def reached(c, value, more=()):
         """do the strategy-related guards of call c hold when the dispatch variable is Strategy.<value>?"""
         env = {strat: value}
         env.update({f"Strategy.{m_}": m_ for m_ in members + ("PARTIAL",)})
-        for t, sense in guards_of(pm, c, fi.node):
+        for t, sense in list(guards_of(pm, c, fi.node)) + list(more):
             if strat not in {x.id for x in ast.walk(t) if isinstance(x, ast.Name)}:
                 continue
             t2 = ast.parse(norm(t).replace(" is not ", " != ").replace(" is ", " == "), mode="eval").body
@@ -375,7 +405,7 @@ def fallback_and_dispatch(rep):
         return True
     for q, c in calls.items():
         try:
-            table = {m_: reached(c, m_) for m_ in members}
+            table = {m_: reached(c, m_, extra_conds.get(q, ())) for m_ in members}
             okd = table == {m_: (m_ == own[q]) for m_ in members}
         except Undecided as exc:
             table, okd = {"undecided": str(exc)}, None
@@ -386,10 +416,12 @@ def fallback_and_dispatch(rep):
         rep.ob("O6.5", "SHAPE", fi, renamed == cal.params[: len(names)] and len(names) == len(cal.params), c,
                "arguments are bound to the like-named parameters", {"args": names, "params": cal.params}, node=c)
     # final guard
-    rets = [r for r in returns_of(fi.node) if isinstance(r.value, ast.IfExp)]
+    from ..facts import final_return_expr
+    fre = final_return_expr(fi.node)
+    rets = returns_of(fi.node)
     ok = None
-    if rets:
-        v = rets[-1].value
+    if isinstance(fre, ast.IfExp):
+        v = fre
         def _assigned_to(c):
             n = pm.get(c)
             while isinstance(n, ast.IfExp):
@@ -431,11 +463,16 @@ def limits(rep):
         for lp in iso_loops:
             outer = enclosing_loops(pm, lp, fi.node)
             scope = outer[-1] if outer else lp
-            for ex in [n for n in walk_local(scope) if isinstance(n, (ast.Break, ast.Return, ast.Continue))]:
+            inside_enum = {id(x) for x in walk_local(lp)}
+            for ex in [n for n in walk_local(scope) if isinstance(n, (ast.Break, ast.Return)) or (isinstance(n, ast.Continue) and id(n) in inside_enum)]:
                 gs = guards_of(pm, ex, scope)
                 txt = " and ".join(norm(t) for t, _ in gs)
                 if isinstance(ex, ast.Break):
-                    ok = bool(gs) and all(s for _, s in gs) and "max_results" in txt
+                    ok = any(s and "max_results" in norm(t) for t, s in gs)
+                    what = "enumeration is cut short only by max_results (truncation)"
+                elif isinstance(ex, ast.Return) and isinstance(ex.value, ast.Name) and any(s and "max_results" in norm(t) for t, s in gs) \
+                        and any(isinstance(r_.value, ast.Name) and r_.value.id == ex.value.id and not guards_of(pm, r_, fi.node, early=False) for r_ in returns_of(fi.node) if r_ is not ex):
+                    ok = True   # same as `break` followed by the function's final `return <results>`
                     what = "enumeration is cut short only by max_results (truncation)"
                 elif isinstance(ex, ast.Return):
                     empty = isinstance(ex.value, ast.List) and not ex.value.elts
